@@ -21,8 +21,8 @@ RULE = ("for each (command class, repository state) the command is first run onc
         "quick samples k (first, last, every 3rd) on four classes, thorough enumerates every k on all classes; non-trivial = a fault was actually "
         "injected (stand-in/failpoint fired); distinct = (class, fault mode, k) triples")
 
-CLASSES = ["checkpoint-after-person", "commit", "amend", "commit-initial", "reset-mixed", "reset-hard", "stash-push", "stash-pop", "checkout", "squash", "rebase", "cherry-pick", "checkpoint"]
-QUICK_CLASSES = ["commit", "stash-pop", "rebase", "reset-mixed", "amend", "checkpoint", "checkpoint-after-person"]
+CLASSES = ["checkpoint-after-person", "commit", "amend", "commit-initial", "reset-mixed", "reset-hard", "stash-push", "stash-pop", "stash-pop-two", "checkout", "squash", "rebase", "cherry-pick", "checkpoint"]
+QUICK_CLASSES = ["commit", "stash-pop", "stash-pop-two", "rebase", "reset-mixed", "amend", "checkpoint", "checkpoint-after-person"]
 
 
 def build_state(t, cls):
@@ -50,6 +50,20 @@ def build_state(t, cls):
         return ["stash", "push", "-q"]
     if cls == "stash-pop":
         t.ai_edit(); t.run("stash", "push", "-q")
+        return ["stash", "pop", "-q"]
+    if cls == "stash-pop-two":
+        # two stash entries that touch the same place of the same file: the older one holds an agent's lines, the newer one (the one
+        # that is popped) a person's. A fault must not make the pop pick up the OTHER entry's attribution for the person's lines.
+        f = t.files[0]
+        for who in ("ai", "person"):
+            b = t.A.read_bytes(f).decode().splitlines()
+            if who == "ai":
+                t.A.human_ckpt([f])
+            b[1:1] = [t.newline() + " " + who, t.newline() + " " + who]
+            t.write_both(f, "\n".join(b) + "\n")
+            if who == "ai":
+                t.A.ai_ckpt("S1", [f])
+            t.run("stash", "push", "-q")
         return ["stash", "pop", "-q"]
     if cls == "checkout":
         t.run("branch", "other"); t.ai_edit()
